@@ -234,12 +234,18 @@ def ods_encodable(value, features):
 
 
 # ---------------------------------------------------------------------------------- xlsx
-def write_xlsx(path, sheets, typed=False):
+def write_xlsx(path, sheets, typed=False, date_1904=None):
     """sheets: list of tables; cells are str (written with write_string) unless typed=True, then
     cells are ('kind', value) tuples handled by the caller-provided kinds below."""
     import xlsxwriter
 
-    book = xlsxwriter.Workbook(path)
+    if date_1904 is None:
+        # workbooks whose dates all lie after 1904-01-02 alternate between the two date systems of the format (the
+        # system is a property of the workbook: a date cell means the same day in either)
+        cells = [cell for table in sheets for row in table for cell in row if isinstance(cell, tuple)]
+        dates = [value for kind, value in cells if kind == "datetime"]
+        date_1904 = typed and bool(dates) and all(value.year >= 1905 for value in dates) and len(cells) % 2 == 1
+    book = xlsxwriter.Workbook(path, {"date_1904": True} if date_1904 else {})
     # fixed creation date: the workbook's bytes depend on the contents only (damaged-container cases replay exactly)
     book.set_properties({"created": __import__("datetime").datetime(2020, 1, 1)})
     date_fmt = book.add_format({"num_format": "yyyy-mm-dd hh:mm:ss"})
